@@ -35,6 +35,15 @@ HostOK(e) ==
 Limited == {"data", "fragprobe", "ping", "version", "login", "setfrag"}
 WireOK(e) == /\ (e.kind \in Limited => Len(e.name) <= e.L) /\ LegalName(e.name) /\ D!Match(e.name, e.dom) >= 1
 
+\* e = [dom, name, hdr, codec, srv]: a data query of the real client as the real server received it in a live session, the
+\* codec the client is using, and the bytes the server appended to the session's upstream reassembly buffer for it:
+\* the server's extraction is the decoding of the data part under the CLIENT's codec
+ExtractOK(e) ==
+    LET dl == D!Match(e.name, e.dom)
+        datapart == SubSeq(e.name, e.hdr + 1, dl)
+    IN /\ dl >= e.hdr + 1
+       /\ e.srv = C!Dec(e.codec, Undot(datapart))
+
 HInit == n = 0
 Spec == HInit /\ [][FALSE]_n
 =============================================================================
